@@ -1744,7 +1744,10 @@ void eval_instruction (const char *p) {
 
                 case T_LVALUE_RANGE:
                   {
-                    copy_lvalue_range (sp--);
+                    /* the value stays on the stack until it has been taken: an error
+                     * raised for a wrong type or size must still find and free it */
+                    copy_lvalue_range (sp);
+                    sp--;
                     break;
                   }
 
